@@ -5,6 +5,9 @@ CHECKS = {
  "C01": dict(technique="runtime monitoring: reference-model oracle (independent draft-4/OAS3 evaluator) over enumerated+sampled schema x value executions, with panic guard",
    text="Every execution of Schema.VisitJSON / IsMatching on ~8M distinct (schema,value) pairs (all atoms, all atom pairs, every applicator wrap, random trees) is compared online with an independent three-valued reference evaluator; held on what was executed, nothing beyond.",
    note="Trusts internal/refeval for the non-contested zone; contested null/multipleOf zones carry no verdict; schemas enter through the library's own JSON unmarshaller.", ref="4 C01, 3.1"),
+ "C12": dict(technique="runtime monitoring: metamorphic oracle across validation modes + RFC 6901 trace check of every returned SchemaError pointer/value, panic guard",
+   text="Each (schema,value) is executed in 7 modes (default, FailFast, MultiErrors, customiser, both, IsMatching, IsMatchingJSON<T>); any verdict difference or panic is a violation; every SchemaError returned directly or inside a MultiError has its JSONPointer resolved in the validated value and its quoted Value compared; pointer must be stable across calls. Held on the executions listed in evidence.",
+   note="Relies on the pointer convention for 'required' (enclosing object + missing key); errors under Origin are not asserted; VisitJSON<Type> entry points are outside the statement and not compared.", ref="4 C12"),
 }
 NOT_YET = {}
 def main():
